@@ -33,14 +33,14 @@ def specTail (E : Eco) (rv L : Text) (versions : List Text) (cur : Text) : Optio
     some (.warning, "Update available: ".toList ++ cur ++ " -> ".toList ++ L)
   else none
 
-theorem core (m : Matcher) (E : Eco) (h : MatcherLaws m E) (rv L : Text) (versions : List Text) (cur : Text) :
+theorem core_at (m : Matcher) (E : Eco) (rv : Text) (h : MatcherLawsAt m E rv) (L : Text) (versions : List Text) (cur : Text) :
     createDiagnostic (statusOf m rv L versions) cur (some L) = specTail E rv L versions cur := by
   unfold statusOf specTail
   generalize hc : m.cmp rv L = c
-  have hi := h.invalid_iff rv L
-  have hl := h.latest_iff rv L
-  have ho := h.outdated_iff rv L
-  have he := h.exists_iff rv versions
+  have hi := h.invalid_iff L
+  have hl := h.latest_iff L
+  have ho := h.outdated_iff L
+  have he := h.exists_iff versions
   rw [hc] at hi hl ho
   cases c with
   | invalid =>
@@ -130,6 +130,33 @@ theorem core (m : Matcher) (E : Eco) (h : MatcherLaws m E) (rv L : Text) (versio
           · exact Or.inl a
           · exact Or.inr ⟨v, hv, hin⟩
       simp [hex', w1, w2, hany, createDiagnostic]
+
+theorem core (m : Matcher) (E : Eco) (h : MatcherLaws m E) (rv L : Text) (versions : List Text) (cur : Text) :
+    createDiagnostic (statusOf m rv L versions) cur (some L) = specTail E rv L versions cur :=
+  core_at m E rv (h.at rv) L versions cur
+
+/-- the decision theorem for ONE dependency, needing the matcher's laws only at the spec that is actually
+    judged (the dist-tag target if the spec resolves as a tag, the spec itself otherwise) -/
+theorem c01_decision_at (m : Matcher) (E : Eco)
+    (latest : Option Text) (tagRes : Option Text) (versions : List Text) (cur : Text)
+    (h : MatcherLawsAt m E (tagRes.getD cur)) :
+    diagFor m (okReads latest tagRes versions) cur = specDiag E latest tagRes versions cur := by
+  unfold diagFor compareVersion specDiag okReads
+  cases latest with
+  | none => rfl
+  | some L =>
+    simp only
+    cases tagRes with
+    | none =>
+      by_cases hk : isPotentialDistTag cur = true
+      · simp [hk, knownTag, createDiagnostic]
+      · have hk' : isPotentialDistTag cur = false := by simpa using hk
+        simp only [hk', knownTag, Option.isNone_none, Bool.and_false, Bool.false_eq_true, if_false,
+          Option.getD_none]
+        exact core_at m E cur (by simpa using h) L versions cur
+    | some rv =>
+      simp only [Option.isNone_some, Bool.false_and, Bool.false_eq_true, if_false, Option.getD_some]
+      exact core_at m E rv (by simpa using h) L versions cur
 
 /-- **C01, decision table.**  For every matcher that satisfies its ecosystem's laws,
     every cache content and every spec string, the diagnostic produced by the code's
